@@ -15,6 +15,7 @@ RULE = ("cases = C03's workload (datasets D1-D10 x schemes S1-S3,S6,S7 x algorit
 ASSUMPTIONS = ["reference model vf/ref.py", "the statement's tolerance 1e-6: absolute on dyadic schemes (exact arithmetic; covers the solver pool gap 1e-6), relative on decimal schemes (there a score in [-1e-6, 0) is rounding noise, not a negative score)",
                "the documented sentinel -1 in the raw feature means 'not computed yet' and is only counted"]
 SUMMARY_KEYS = ["consensuses", "supplied_scores", "multi_ranking_consensuses", "zero_objective_pulp"]
+THOROUGH_SCALE = 3
 CRASH_IS_VIOLATION = False
 TIMEOUT = {"quick": 900, "thorough": 5400}
 
